@@ -51,6 +51,11 @@ type TxSpec struct {
 	Nonce     uint64       `json:"nonce"`
 	BadSig    bool         `json:"bad_sig"`
 	Clauses   []ClauseSpec `json:"clauses"`
+	// block-flow features (zero values = defaults)
+	Exp         uint32 `json:"expiration,omitempty"`    // 0 = never expires
+	BadChainTag bool   `json:"bad_chain_tag,omitempty"`
+	Dep         int    `json:"depends_on,omitempty"`    // 0 none; k>0 = k-th transaction built in this world; -1 = an unknown id
+	FutureRef   uint32 `json:"future_ref,omitempty"`    // block-ref number (overrides ref_kind) when > 0
 }
 
 type Setup struct {
@@ -161,6 +166,27 @@ type World struct {
 	ver     uint32
 	Known   map[thor.Bytes32]thor.Address // secure key -> address, for every address the harness has seen
 	Setup   *Setup
+	// block-flow mode (shadow execution next to a real packer.Flow): explicit block context, chain head, version minor
+	Ctx   *xenv.BlockContext
+	Head  thor.Bytes32
+	minor uint32
+	TxIDs []thor.Bytes32 // ids of the transactions built so far (DependsOn refers to them)
+}
+
+func (w *World) head() thor.Bytes32 {
+	if w.Head != (thor.Bytes32{}) {
+		return w.Head
+	}
+	return w.Genesis
+}
+
+// stopTime reads the energy growth stop time from a state (MaxUint64 before HAYABUSA).
+func (w *World) stopTime(root trie.Root, T uint64) uint64 {
+	ts, err := builtin.Energy.Native(state.New(w.DB, root), T).GetEnergyGrowthStopTime()
+	if err != nil {
+		hx.Fatal("stop time: %v", err)
+	}
+	return ts
 }
 
 // Close releases the in-memory leveldb instance behind the world (its goroutines keep it alive otherwise).
@@ -278,7 +304,7 @@ func NewWorld(s *Setup) *World {
 
 func (w *World) commit(st *state.State) {
 	w.ver++
-	ver := trie.Version{Major: w.ver}
+	ver := trie.Version{Major: w.ver, Minor: w.minor}
 	stg, err := st.Stage(ver)
 	if err != nil {
 		hx.Fatal("stage: %v", err)
@@ -402,7 +428,22 @@ func (w *World) BuildTx(s *TxSpec) *tx.Transaction {
 	if s.Dynamic {
 		typ = tx.TypeDynamicFee
 	}
-	b := tx.NewBuilder(typ).ChainTag(w.Repo.ChainTag()).Gas(s.Gas).Nonce(s.Nonce).Expiration(math.MaxUint32)
+	exp, tag := uint32(math.MaxUint32), w.Repo.ChainTag()
+	if s.Exp > 0 {
+		exp = s.Exp
+	}
+	if s.BadChainTag {
+		tag ^= 0x55
+	}
+	b := tx.NewBuilder(typ).ChainTag(tag).Gas(s.Gas).Nonce(s.Nonce).Expiration(exp)
+	switch {
+	case s.Dep > 0 && s.Dep <= len(w.TxIDs):
+		id := w.TxIDs[s.Dep-1]
+		b.DependsOn(&id)
+	case s.Dep != 0:
+		id := thor.Blake2b([]byte{byte(s.Nonce), byte(s.Nonce >> 8), 0xdd})
+		b.DependsOn(&id)
+	}
 	if s.Dynamic {
 		b.MaxFeePerGas(big10(s.MaxFee)).MaxPriorityFeePerGas(big10(s.MaxPrio))
 	} else {
@@ -415,6 +456,9 @@ func (w *World) BuildTx(s *TxSpec) *tx.Transaction {
 		b.BlockRef(tx.NewBlockRef(1))
 	default:
 		b.BlockRef(tx.NewBlockRef(0))
+	}
+	if s.FutureRef > 0 {
+		b.BlockRef(tx.NewBlockRef(s.FutureRef))
 	}
 	for _, c := range s.Clauses {
 		var to *thor.Address
@@ -487,10 +531,17 @@ type Obs struct {
 	CreditAfter *big.Int
 	Views       []thor.Address // addresses reported by the model for this tx
 	setup       *Setup
+	preRoot     trie.Root
+	GasLimit    uint64
+	Skipped     bool
 	AdoptRevertChanged bool // after checkpoint / failed ExecuteTransaction / RevertTo (packer Adopt) the state root differs
 }
 
 func (w *World) blockCtx() (*xenv.BlockContext, uint64) {
+	if w.Ctx != nil {
+		c := *w.Ctx
+		return &c, math.MaxUint64
+	}
 	s := w.Setup
 	ctx := &xenv.BlockContext{Beneficiary: parseAddr(s.Benef), Number: s.Number, Time: w.GenTime + s.TimeDelta, GasLimit: s.GasLimit}
 	if s.Number >= s.Galactica {
@@ -501,11 +552,17 @@ func (w *World) blockCtx() (*xenv.BlockContext, uint64) {
 
 // Exec runs one transaction on the current world state and advances the world to the state the runtime left behind.
 func (w *World) Exec(spec *TxSpec) *Obs {
+	o := w.Prepare(spec, w.BuildTx(spec))
+	w.Run(o)
+	return o
+}
+
+// Prepare gathers the model's inputs that are hashes / signatures / database reads on the current state (no execution).
+func (w *World) Prepare(spec *TxSpec, trx *tx.Transaction) *Obs {
 	ctx, stop := w.blockCtx()
-	o := &Obs{setup: w.Setup, Spec: spec, T: ctx.Time, Stop: stop, Number: ctx.Number, BaseFee: ctx.BaseFee, Benef: ctx.Beneficiary}
-	trx := w.BuildTx(spec)
+	o := &Obs{setup: w.Setup, Spec: spec, T: ctx.Time, Stop: stop, Number: ctx.Number, BaseFee: ctx.BaseFee, Benef: ctx.Beneficiary, GasLimit: ctx.GasLimit}
 	o.Tx = trx
-	ch := w.Repo.NewChain(w.Genesis)
+	ch := w.Repo.NewChain(w.head())
 	st := state.New(w.DB, w.Root)
 	// inputs of the model that are hashes / signatures / database reads (computed by the real code)
 	var err error
@@ -555,10 +612,25 @@ func (w *World) Exec(spec *TxSpec) *Obs {
 	}
 	o.BurnedPre, _ = builtin.Energy.Native(st, ctx.Time).TotalBurned()
 	o.PreRoot = w.Root.Hash
-	preRoot := w.Root
+	o.preRoot = w.Root
+	return o
+}
 
-	// the real thing (fresh state object so the reads above cannot interfere)
-	st = state.New(w.DB, w.Root)
+// Skip: the transaction is not executed (rejected by the flow before execution); the observation is "nothing happened".
+func (w *World) Skip(o *Obs) {
+	o.Stop = w.stopTime(w.Root, o.T)
+	o.Pre = w.WalkAt(o.preRoot, o.T, o.Stop)
+	o.Post, o.PostRoot, o.BurnedPost = o.Pre, o.PreRoot, o.BurnedPre
+	o.Skipped = true
+}
+
+// Run executes the prepared transaction on the current world state and advances the world to the state the runtime left behind.
+func (w *World) Run(o *Obs) {
+	ctx, _ := w.blockCtx()
+	spec, trx, preRoot := o.Spec, o.Tx, o.preRoot
+	ch := w.Repo.NewChain(w.head())
+	// the real thing (fresh state object so the reads of Prepare cannot interfere)
+	st := state.New(w.DB, w.Root)
 	tr := &tracer{w: w}
 	rt := runtime.New(ch, st, ctx, w.Fork)
 	rt.SetVMConfig(vm.Config{Tracer: tr})
@@ -597,6 +669,8 @@ func (w *World) Exec(spec *TxSpec) *Obs {
 	}
 	w.commit(st)
 	o.PostRoot = w.Root.Hash
+	stop := w.stopTime(w.Root, ctx.Time) // at the HAYABUSA block runtime.New stops the growth at T: same energy at T either way
+	o.Stop = stop
 	o.Pre = w.WalkAt(preRoot, ctx.Time, stop)
 	o.Post = w.WalkAt(w.Root, ctx.Time, stop)
 	st2 := state.New(w.DB, w.Root)
@@ -604,14 +678,13 @@ func (w *World) Exec(spec *TxSpec) *Obs {
 	if o.CommonTo != nil && o.SigOK {
 		o.CreditAfter, _ = builtin.Prototype.Native(st2).Bind(*o.CommonTo).UserCredit(o.Origin, ctx.Time)
 	}
-	return o
 }
 
 // RevertLikeAdopt: the packer wraps ExecuteTransaction in checkpoint / RevertTo; returns the root after doing the same.
 func (w *World) ExecWithAdoptRevert(spec *TxSpec) (failed bool, rootBefore, rootAfter thor.Bytes32) {
 	ctx, _ := w.blockCtx()
 	st := state.New(w.DB, w.Root)
-	rt := runtime.New(w.Repo.NewChain(w.Genesis), st, ctx, w.Fork)
+	rt := runtime.New(w.Repo.NewChain(w.head()), st, ctx, w.Fork)
 	cp := st.NewCheckpoint()
 	var err error
 	func() {
@@ -726,7 +799,9 @@ func (o *Obs) HasSelfDestructToSelf() bool {
 
 func b01(b bool) string { return hx.B(b) }
 
-func (w *World) OracleLine(o *Obs) string {
+func (w *World) OracleLine(o *Obs) string { return "TX |" + w.oracleSections(o) }
+
+func (w *World) oracleSections(o *Obs) string {
 	var sb strings.Builder
 	s := w.Setup
 	o.Views = w.ViewAddrs()
@@ -734,8 +809,9 @@ func (w *World) OracleLine(o *Obs) string {
 	if o.BaseFee != nil {
 		bf = hexBig(o.BaseFee)
 	}
-	fmt.Fprintf(&sb, "TX | %x %x %x %x %x %s %s %s %s %x |", o.T, o.Stop, o.Number, s.Galactica, s.GasLimit, bf, hexBig(o.BGP), hexBig(o.Ratio),
+	fmt.Fprintf(&sb, " %x %x %x %x %x %s %s %s %s %x |", o.T, o.Stop, o.Number, w.Fork.GALACTICA, o.GasLimit, bf, hexBig(o.BGP), hexBig(o.Ratio),
 		addrN(o.Benef), thor.BlockInterval())
+	_ = s
 	deleg := "-"
 	if o.Delegator != nil {
 		deleg = addrN(*o.Delegator)
@@ -839,6 +915,7 @@ type Answer struct {
 	Log      [][3]*big.Int
 	Views    map[thor.Address][2]*big.Int
 	Burned   *big.Int // tsub - tadd
+	FlowUsed *big.Int // AD lines: the flow's gas used after this adoption
 	Raw      string
 }
 
@@ -862,7 +939,7 @@ func (o *Obs) ParseAnswer(ans string) *Answer {
 	secs := strings.Split(ans, "|")
 	head := strings.Fields(secs[0])
 	var views, tail []string
-	if head[0] == "F" {
+	if head[0] == "F" || head[0] == "R" {
 		a.Failed, a.Err = true, head[1]
 		views, tail = strings.Fields(secs[1]), strings.Fields(secs[2])
 	} else {
@@ -875,6 +952,9 @@ func (o *Obs) ParseAnswer(ans string) *Answer {
 			a.Log = append(a.Log, [3]*big.Int{bigHex(lg[i]), bigHex(lg[i+1]), bigHex(lg[i+2])})
 		}
 		views, tail = strings.Fields(secs[2]), strings.Fields(secs[3])
+		if head[0] == "A" && len(secs) > 4 {
+			a.FlowUsed = bigHex(strings.TrimSpace(secs[4]))
+		}
 	}
 	addrs := o.Views
 	if len(views) != 2*len(addrs) {
